@@ -318,3 +318,86 @@ class _CountOnly:
 
     def oracle_ok(self, site):
         self.run.count("hist.subsub.lazy.observed", "ok")
+
+
+# ----------------------------------------------------------------------------- locked / shared / memory-mapped tensordicts
+def flagged(run, drv):
+    """the same reads and scalar writes on a locked, a shared (`share_memory_`) and a memory-mapped (`memmap_`) tensordict:
+    `_index_tensordict` and `_set_at_str` have branches for them. Property oracle only."""
+    import shutil
+    import tempfile
+    from common import BUILD
+    rng = run.rng
+    n = 300 if run.tier == "quick" else 2500
+    BUILD.mkdir(exist_ok=True)
+    tmp = tempfile.mkdtemp(prefix="c03_memmap_", dir=str(BUILD))
+    try:
+        for i in range(n):
+            bs = G.gen_bs(rng)
+            idx = G.gen_index_adv(rng, bs) if rng.random() < 0.2 else G.gen_index(rng, bs, p_bad=0.04, p_overrun=0.04)
+            if sum(1 for t in G.items_of(idx) if t == G.ELL) > 1:
+                continue
+            spec = S.gen_td_spec(rng, bs)
+            spec["names"], spec["nested"] = None, []
+            flag = rng.choice(["locked", "shared", "memmap"])
+            mode = rng.choice(["read", "write"])
+            run.count("hist.flagged", f"{flag}:{mode}")
+            run.case(("flagged", flag, mode, json.dumps(spec, sort_keys=True), G.index_sx(idx)))
+            case = {"mode": f"{flag}-{mode}", "td": spec, "idx": idx, "idx_str": G.index_json(idx)}
+            py = G.index_py(idx)
+            td = S.build_td(spec)
+            before = {k: td.get(f"l{k}").clone() for k in range(len(spec["feats"]))}
+            try:
+                if flag == "locked":
+                    td.lock_()
+                elif flag == "shared":
+                    td.share_memory_()
+                else:
+                    td.memmap_(f"{tmp}/{i}")
+            except Exception:
+                run.count("hist.flagged", f"{flag}:unbuildable")
+                continue
+            try:
+                proxy = list(torch.zeros(bs)[py].shape)
+            except Exception:
+                proxy = None
+            try:
+                with time_limit(TL):
+                    if mode == "read":
+                        r = td[py]
+                        got = [r.get(f"l{k}") for k in range(len(spec["feats"]))]
+                        got_bs = list(r.batch_size)
+                    else:
+                        td[py] = -1
+                        got = [td.get(f"l{k}").clone() for k in range(len(spec["feats"]))]
+                ok = True
+            except TimeoutError:
+                raise
+            except Exception as e:
+                ok, what = False, f"{type(e).__name__}: {str(e)[:100]}"
+            if proxy is None:
+                if ok:
+                    run.oracle_fail("history-flagged", case, f"torch rejects this index on the batch shape; the {flag} tensordict accepted it", f"flagged:{flag}:" + S.classify_accept(spec, idx))
+                else:
+                    run.oracle_ok("history-flagged")
+                continue
+            if not ok:
+                run.oracle_fail("history-flagged", case, f"torch accepts this index; the {flag} tensordict raised {what}", f"flagged:{flag}:{mode}:raises")
+                continue
+            probs = []
+            if mode == "read" and got_bs != proxy:
+                probs.append(f"batch_size {got_bs} but torch gives {proxy}")
+            for k, f in enumerate(spec["feats"]):
+                if mode == "read":
+                    want = before[k][S.pad_for_leaf(idx, len(f))]
+                else:
+                    want = before[k].clone()
+                    want[S.pad_for_leaf(idx, len(f))] = -1
+                if got[k].shape != want.shape or not torch.equal(torch.as_tensor(got[k]), want):
+                    probs.append(f"l{k}: {torch.as_tensor(got[k]).reshape(-1).tolist()[:10]} expected {want.reshape(-1).tolist()[:10]}")
+            if probs:
+                run.oracle_fail("history-flagged", case, "; ".join(probs)[:400], f"flagged:{flag}:{mode}:values")
+            else:
+                run.oracle_ok("history-flagged")
+    finally:
+        shutil.rmtree(tmp, ignore_errors=True)
